@@ -17,6 +17,8 @@ def _len(I, args, kw):
         c = I.ctx.cell(v)
         if isinstance(c, PList):
             return len(c.items)
+        if isinstance(c, KVDict):
+            return Sum([B2I(p) for p, k, v in c.entries])
         if isinstance(c, PDict):
             return len(c.items)
         if isinstance(c, SList):
@@ -292,6 +294,12 @@ def _set(I, args, kw):
 def _sorted(I, args, kw):
     (v,) = args
     items = [x for g, x in _concrete_items(I, v)]
+    if items and all(is_num(x) for x in items) and any(is_sym(x) for x in items):
+        # symbolic numbers: accepted only when the given order is provably ascending
+        for a, b in zip(items, items[1:]):
+            if I.ctx.feasible(to_z3(a) > to_z3(b)):
+                raise Undecided('sorted() of symbolic numbers whose order is not determined')
+        return I.ctx.alloc(PList(items))
     if all(isinstance(x, (int, str)) and not is_sym(x) for x in items):
         return I.ctx.alloc(PList(sorted(items)))
     if all(isinstance(x, NodeV) and not is_sym(x.idx) for x in items):
@@ -385,6 +393,8 @@ def call_builtin_method(I, recv, name, args, kwargs, fr):
             r = c.call_method(I, recv, name, args, kwargs)
             if r is not NotImplemented:
                 return r
+        if isinstance(c, KVDict):
+            return _kvdict_method(I, recv, c, name, args, kwargs)
         if isinstance(c, PList):
             return _plist_method(I, recv, c, name, args, kwargs)
         if isinstance(c, PDict):
@@ -583,3 +593,47 @@ def _slist_method(I, ref, c, name, args, kw):
         I.ctx.setcell(ref, slist_append(c, args[0]))
         return None
     raise Undecided('symbolic list .%s' % name)
+
+
+def _kvdict_method(I, ref, c, name, args, kw):
+    def hit(p, k):
+        h = And(p, I.equals(args[0], k))
+        return I.ctx.decide(h, 'haskey') if is_sym(h) else h
+    if name == 'get':
+        for p, k, v in c.entries:
+            if hit(p, k):
+                return v
+        return args[1] if len(args) > 1 else None
+    if name == 'pop':
+        for j, (p, k, v) in enumerate(c.entries):
+            if hit(p, k):
+                ents = list(c.entries)
+                del ents[j]
+                I.ctx.setcell(ref, type(c)(ents))
+                return v
+        if len(args) > 1:
+            return args[1]
+        I.raise_('KeyError')
+    if name == 'setdefault':
+        for p, k, v in c.entries:
+            if hit(p, k):
+                return v
+        d = args[1] if len(args) > 1 else None
+        I.ctx.setcell(ref, type(c)(c.entries + [(True, args[0], d)]))
+        return d
+    if name == 'clear':
+        I.ctx.setcell(ref, type(c)([]))
+        return None
+    if name in ('items', 'iteritems'):
+        out = []
+        for p, k, v in c.entries:
+            if p is False:
+                continue
+            if p is True or I.ctx.decide(p, 'present'):
+                out.append((k, v))
+        return I.ctx.alloc(PList(out))
+    if name == 'keys':
+        return I.ctx.alloc(PList([k for g, k in _concrete_items(I, ref)]))
+    if name == 'copy':
+        return I.ctx.alloc(type(c)(c.entries))
+    raise Undecided('dict.%s (symbolic keys)' % name)
